@@ -151,6 +151,11 @@ def gdist1g : List Int → List α → List (Option α)
   | c :: cs, p :: ps => none :: gdistFrom c p cs ps
   | _, _ => []
 
+/-- genetic distances between the successive markers i, i+1, …, j:
+    `[pos[i+1]-pos[i], …, pos[j]-pos[j-1]]` -/
+def adjDists (pos : List α) (i j : Nat) : List α :=
+  (List.zipWith (fun a b => b - a) (pos.drop i) (pos.drop (i + 1))).take (j - i)
+
 variable [Div α] [OfNat α 1] [OfNat α 2]
 
 /-- a map function extended to `numpy.inf`: `mapfn(inf) = 0.5` for Haldane (`0.5*(1-exp(-inf))`)
